@@ -192,6 +192,7 @@ def check(run: Run, prog: Program, model: Model, tier: str) -> None:
         "optional marker on the tail; head, tail and the leaf-or-group decision must be computed from K and the "
         "separator parameter in a recognised idiom; two entries whose heads coincide land in one group. These are "
         "necessary conditions of the round-trip property; the round trip on concrete mappings is not decided.")
+    run.explanation += ' OPTIONAL-KEY-STORED: optional(k).key evaluates to k itself.'
     run.rule_text = ("one obligation per clause and key form (plain / optional / `...`), read off the abstract result tables; "
                      "non-trivial = needed the evaluation of both loops of rollout and of the recursive call's arguments")
     f = prog.func("d42.utils._rollout.rollout")
@@ -387,6 +388,30 @@ def check(run: Run, prog: Program, model: Model, tier: str) -> None:
         else:
             rec("OPTIONAL-KEY-EQ", f"optional.{mname}", "undecided", "no returning path")
 
+    # ---------------------------------------------------------------- OPTIONAL-KEY-STORED
+    # rollout re-wraps every still-compound tail in optional(tail) and unwraps it one level down: the round trip
+    # optional(k).key must give back k itself, or group names / leaves are altered on the way
+    it = Interp(prog, model, unroll=1)
+
+    def run_k(i: Interp) -> V:
+        o = i._construct(oc, [Sym("key_a", "str", ("param", "a"))], {}, None)
+        return i.getattr(o, "key", None)
+    try:
+        kp = it.run_paths(run_k)
+    except Exception as ex:      # no attribute-evaluation entry point under that name
+        kp = []
+        rec("OPTIONAL-KEY-STORED", "optional(key).key", "undecided", f"could not evaluate the accessor: {ex}")
+    rets = [p for p in kp if p.outcome == "return"]
+    for p in rets:
+        if p.value is None or p.value.key() != "key_a":
+            rec("OPTIONAL-KEY-STORED", "optional(key).key", "violated",
+                f"optional(k).key is {p.value.key()[:50] if p.value is not None else None}, not k: the tail re-wrapped at one level "
+                "is a different string at the next")
+        else:
+            rec("OPTIONAL-KEY-STORED", "optional(key).key", "holds")
+    if kp and not rets:
+        rec("OPTIONAL-KEY-STORED", "optional(key).key", "undecided", "no returning path")
+
     # ---------------------------------------------------------------- report
     for (rule, construct), vs in sorted(verdicts.items()):
         bad = sorted({d for s_, d in vs if s_ == "violated"})
@@ -403,6 +428,8 @@ def check(run: Run, prog: Program, model: Model, tier: str) -> None:
             run.undecided(rule, c, site, "no path of the abstract evaluation reaches this case")
     run.floor("SEP-THREAD", 2)
     run.floor("OPTIONAL-REATTACH", 2)
+    run.floor("OPTIONAL-KEY-STORED", 1)
+    run.floor("OPTIONAL-KEY-EQ", 2)
 
 
 _WITNESS = {
@@ -412,6 +439,7 @@ _WITNESS = {
     "LEAF-VALUE": "rollout({'a.b': v})['a']['b'] is not v",
     "ELLIPSIS-PASS": "rollout({...: ..., 'a.b': 1}) loses the `...: ...` entry",
     "GROUP-GUARD": "rollout({'a.b': 1, 'x': 0, 'a.c': 2}) != {'a': {'b': 1, 'c': 2}, 'x': 0}",
+    "OPTIONAL-KEY-STORED": "rollout({optional('user. nick.value'): 1, 'user. nick.kind': 2}) splits the group ' nick' in two",
     "OPTIONAL-KEY-EQ": "class F(str, Enum): ZIP = 'zip'; rollout({optional('a.zip'): 1}) != {'a': {optional(F.ZIP): 1}}",
 }
 
@@ -488,6 +516,8 @@ def _group_guard(run: Run, prog: Program, model: Model, f: FuncInfo, rec: Any) -
 
 U = "d42/utils/_rollout.py"
 MUTANTS = [
+    {"name": "optional() strips whitespace from string keys (seeded C18-J)", "rule": "OPTIONAL-KEY-STORED",
+     "edits": [("d42/declaration/types/_optional.py", "        self._key = key\n", "        self._key = key.strip() if isinstance(key, str) else key\n")]},
     {"name": "optional equality also compares the classes of the keys", "rule": "OPTIONAL-KEY-EQ",
      "edits": [("d42/declaration/types/_optional.py", "        return isinstance(other, self.__class__) and (self._key == other.key)",
                 "        return isinstance(other, self.__class__) and type(self._key) is type(other.key) and (self._key == other.key)")]},
